@@ -111,5 +111,92 @@ theorem forward_dual (Θ δΘ : Params R) (gates : List (PGate n R)) (ψ : Vec n
     rw [i1, i2, e1, e2]
     exact ⟨rfl, rfl⟩
 
+/-! ### Knill–Laflamme forward map over the dual numbers (audit M4) -/
+
+section kl
+variable [StarRing R] {m : Nat}
+
+/-- conjugation on `R[ε]/(ε²)`: coefficient-wise -/
+instance dualConj : Conj (DualNumber R) := ⟨fun z => inl (star z.fst) + inr (star z.snd)⟩
+
+@[simp] theorem fst_conj (z : DualNumber R) : (conj z).fst = star z.fst := by simp [conj, dualConj]
+@[simp] theorem snd_conj (z : DualNumber R) : (conj z).snd = star z.snd := by simp [conj, dualConj]
+
+/-- an operator list over the dual numbers with constant (ε-free) matrices -/
+def Op.liftD : Op m R → Op m (DualNumber R)
+  | .unitary U t => .unitary (fun a b => inl (U a b)) t
+  | .control U c r tn => .control (fun a b => inl (U a b)) c r tn
+  | .measure s o => .measure s o
+
+omit [StarRing R] in
+theorem op_dual (g : Op m R) (ψ : Vec m (DualNumber R)) (x : Bits m) :
+    ((Op.liftD g).apply ψ x).fst = g.apply (fun y => (ψ y).fst) x ∧
+    ((Op.liftD g).apply ψ x).snd = g.apply (fun y => (ψ y).snd) x := by
+  cases g with
+  | unitary U t =>
+    have h := applyGate_dual t (fun a b => (inl (U a b) : DualNumber R)) ψ x
+    simp only [TrivSqZeroExt.fst_inl, TrivSqZeroExt.snd_inl, applyGate_zero, add_zero] at h
+    exact h
+  | control U c r tn =>
+    have h := applyControlled_dual c r tn (fun a b => (inl (U a b) : DualNumber R)) ψ x
+    simp only [TrivSqZeroExt.fst_inl, TrivSqZeroExt.snd_inl, applyGate_zero, ite_self, add_zero] at h
+    exact h
+  | measure s o =>
+    simp only [Op.liftD, Op.apply, project]
+    split <;> simp
+
+omit [StarRing R] in
+theorem applySeq_dual (ops : List (Op m R)) (ψ : Vec m (DualNumber R)) (x : Bits m) :
+    (applySeq (ops.map Op.liftD) ψ x).fst = applySeq ops (fun y => (ψ y).fst) x ∧
+    (applySeq (ops.map Op.liftD) ψ x).snd = applySeq ops (fun y => (ψ y).snd) x := by
+  induction ops generalizing ψ with
+  | nil => exact ⟨rfl, rfl⟩
+  | cons g rest ih =>
+    have hf : applySeq ((g :: rest).map Op.liftD) ψ = applySeq (rest.map Op.liftD) ((Op.liftD g).apply ψ) := rfl
+    have hg1 : (fun y => ((Op.liftD g).apply ψ y).fst) = g.apply (fun y => (ψ y).fst) := funext fun y => (op_dual g ψ y).1
+    have hg2 : (fun y => ((Op.liftD g).apply ψ y).snd) = g.apply (fun y => (ψ y).snd) := funext fun y => (op_dual g ψ y).2
+    obtain ⟨i1, i2⟩ := ih ((Op.liftD g).apply ψ)
+    rw [hf, i1, i2, hg1, hg2]
+    exact ⟨rfl, rfl⟩
+
+theorem vdot_dual (φ ψ : Vec m (DualNumber R)) :
+    (vdot φ ψ).fst = @vdot R m _ _ _ ⟨star⟩ (fun x => (φ x).fst) (fun x => (ψ x).fst) ∧
+    (vdot φ ψ).snd = @vdot R m _ _ _ ⟨star⟩ (fun x => (φ x).fst) (fun x => (ψ x).snd)
+                    + @vdot R m _ _ _ ⟨star⟩ (fun x => (φ x).snd) (fun x => (ψ x).fst) := by
+  simp only [vdot, sumBits_eq_sum, fst_sum, snd_sum, TrivSqZeroExt.fst_mul, snd_mul', fst_conj, snd_conj,
+    Finset.sum_add_distrib]
+  exact ⟨trivial, trivial⟩
+
+/-- **the differential of the Knill–Laflamme forward map is the ε-coefficient of `klForward` at `q + ε·dq`**
+(the same model constant, run over the dual numbers): `⟪dq_i, O q_j⟫ + ⟪q_i, O dq_j⟫` -/
+theorem klForward_dual (L : ℕ) (ops : List (Op m R)) (q dq : ℕ → Vec m R) (i j : ℕ) :
+    (klForward L (ops.map Op.liftD) (fun i x => dualOf (q i x) (dq i x)) i j).fst
+      = @klForward R _ _ _ ⟨star⟩ m L ops q i j ∧
+    (klForward L (ops.map Op.liftD) (fun i x => dualOf (q i x) (dq i x)) i j).snd
+      = @vdot R m _ _ _ ⟨star⟩ (dq i) (applySeq ops (q j)) + @vdot R m _ _ _ ⟨star⟩ (q i) (applySeq ops (dq j)) := by
+  unfold klForward
+  have h := vdot_dual (fun x => dualOf (q i x) (dq i x)) (applySeq (ops.map Op.liftD) (fun x => dualOf (q j x) (dq j x)))
+  have e1 : (fun x => (applySeq (ops.map Op.liftD) (fun x => dualOf (q j x) (dq j x)) x).fst) = applySeq ops (q j) :=
+    funext fun x => by rw [(applySeq_dual ops _ x).1]; simp only [fst_dualOf]
+  have e2 : (fun x => (applySeq (ops.map Op.liftD) (fun x => dualOf (q j x) (dq j x)) x).snd) = applySeq ops (dq j) :=
+    funext fun x => by rw [(applySeq_dual ops _ x).2]; simp only [snd_dualOf]
+  simp only [fst_dualOf, snd_dualOf, e1, e2] at h
+  refine ⟨h.1, ?_⟩
+  rw [h.2, add_comm]
+
+end kl
+
+/-! ### squaring over the dual numbers: `δA = δS·S + S·δS` is the ε-coefficient of `(S + ε δS)²` -/
+
+theorem sq_dual {m : ℕ} (S δS : Matrix (Fin m) (Fin m) R) :
+    let Sε : Matrix (Fin m) (Fin m) (DualNumber R) := Matrix.of fun a b => dualOf (S a b) (δS a b)
+    (∀ a b, ((Sε * Sε) a b).fst = (S * S) a b) ∧ (∀ a b, ((Sε * Sε) a b).snd = (δS * S + S * δS) a b) := by
+  intro Sε
+  refine ⟨fun a b => ?_, fun a b => ?_⟩
+  · simp only [Sε, Matrix.mul_apply, Matrix.of_apply, fst_sum, TrivSqZeroExt.fst_mul, fst_dualOf]
+  · simp only [Sε, Matrix.mul_apply, Matrix.add_apply, Matrix.of_apply, snd_sum, snd_mul', fst_dualOf, snd_dualOf,
+      Finset.sum_add_distrib]
+    rw [add_comm]
+
 end Backward
 end Numqi
